@@ -1382,7 +1382,7 @@ def basic_pack(**kw):
 def make_pack(sym=False, inf=False, merge=False, iterative=False, factory=False, parent_factory=False,
               prefix_verified=None, prefix_verified_rev=None, empty_prefix_verified=False, two_sets=False, no_initial=False, name=None, expand=True,
               split=False, oneway=False, lazy=False, trim=False, rename=False, mono=False, fac2=False, cycle=False,
-              redundant_parent=False, brute=None, trimonly=False, hidden=False, trimrename=False, pfactory2=False, noinf=False, redpar=False, prefix_verified_nested=None, expand2=False, lookahead=False, ow2=None, sym_marked=False, inf_marked=False, fold=False):
+              redundant_parent=False, brute=None, trimonly=False, hidden=False, trimrename=False, pfactory2=False, noinf=False, redpar=False, prefix_verified_nested=None, expand2=False, lookahead=False, ow2=None, sym_marked=False, inf_marked=False, fold=False, swapexp=False):
     inferral = ([MinimizeMarked()] if inf_marked else [MinimizePatterns()] if inf else []) + ([MergeStats()] if merge else []) + ([RenameStats()] if rename else [])
     exp = [ExpandFactory()] if factory else [Expand()]
     if parent_factory:
@@ -1411,6 +1411,9 @@ def make_pack(sym=False, inf=False, merge=False, iterative=False, factory=False,
         exp = [LookaheadFactory()]
     if fold:
         exp = [FoldSwap(), ExpandUnlessFoldable()]
+    if swapexp:
+        # an involutive two-way strategy among the expansion strategies: a <-> b is inserted, and later b <-> a
+        exp = exp + [Swap(workable=True)]
     expansion = [exp]
     if two_sets:
         expansion = [[RemoveFront()], exp] if no_initial else [exp, [ExpandFactory()]]
